@@ -187,3 +187,122 @@ Proof.
   - f_equal. assumption.
   - rewrite repeat_sp_spec. f_equal. f_equal. assumption.
 Qed.
+
+(* ---------------------------------------------------------------- R3: mode-aware layouts *)
+
+(* does the flat resolution of a document contain a mandatory line break? *)
+Fixpoint flat_has_line (d : doc) : bool :=
+  match d with
+  | DNil | DText _ | DTextW _ _ => false
+  | DHardline => true
+  | DAppend a b => flat_has_line a || flat_has_line b
+  | DGroup x | DNest _ x | DAlign x => flat_has_line x
+  | DFlatAlt _ f => flat_has_line f
+  end.
+
+Lemma fitting_true_no_line : forall fuel width pos ind cur bc,
+  fitting fuel width pos ind MFlat cur bc = Some true -> existsb flat_has_line cur = false.
+Proof.
+  induction fuel as [|fuel IH]; intros width pos ind cur bc H; [discriminate|].
+  cbn [fitting] in H.
+  destruct cur as [|d cur']; [reflexivity|].
+  destruct d; cbn [existsb flat_has_line].
+  - apply IH in H. exact H.
+  - apply IH in H. cbn [existsb] in H. rewrite orb_assoc in H. exact H.
+  - apply IH in H. exact H.
+  - apply IH in H. exact H.
+  - apply IH in H. exact H.
+  - discriminate.
+  - destruct (width <? pos + text_width (DText s)); [discriminate|]. apply IH in H. exact H.
+  - destruct (width <? pos + text_width (DTextW w s)); [discriminate|]. apply IH in H. exact H.
+  - apply IH in H. exact H.
+Qed.
+
+(* The layouts the renderer can produce: a group is either broken, or flat — and then its flat
+   resolution holds no mandatory line break; FlatAlt follows the mode. *)
+Inductive lay : mode -> doc -> list atom -> Prop :=
+| l_nil m : lay m DNil []
+| l_app m a b x y : lay m a x -> lay m b y -> lay m (DAppend a b) (x ++ y)
+| l_group_flat d x : flat_has_line d = false -> lay MFlat d x -> lay MBreak (DGroup d) x
+| l_group_break d x : lay MBreak d x -> lay MBreak (DGroup d) x
+| l_group_inflat d x : lay MFlat d x -> lay MFlat (DGroup d) x
+| l_alt_break b f x : lay MBreak b x -> lay MBreak (DFlatAlt b f) x
+| l_alt_flat b f x : lay MFlat f x -> lay MFlat (DFlatAlt b f) x
+| l_nest m k d x : lay m d x -> lay m (DNest k d) x
+| l_hard m : lay m DHardline [ALine]
+| l_text m s : lay m (DText s) [AText s]
+| l_textw m w s : lay m (DTextW w s) [AText s]
+| l_align m d x : lay m d x -> lay m (DAlign d) x.
+
+Inductive stack_lay : list cmd -> list atom -> Prop :=
+| sl_nil : stack_lay [] []
+| sl_cons i m d bc x y : lay m d x -> stack_lay bc y -> stack_lay ((i, m, d) :: bc) (x ++ y).
+
+Lemma sl_inv i m d bc z :
+  stack_lay ((i, m, d) :: bc) z -> exists x y, z = x ++ y /\ lay m d x /\ stack_lay bc y.
+Proof. intros H. inversion H; subst. eauto. Qed.
+
+Lemma sl_replace i m d i' m' d' bc z :
+  (forall x, lay m' d' x -> lay m d x) -> stack_lay ((i', m', d') :: bc) z -> stack_lay ((i, m, d) :: bc) z.
+Proof.
+  intros Hd H. apply sl_inv in H. destruct H as (x & y & -> & Hx & Hy). constructor; auto.
+Qed.
+
+Lemma best_lay : forall fuel width pos bc es,
+  best fuel width pos bc = Some es -> stack_lay bc (map atom_of_event es).
+Proof.
+  induction fuel as [|fuel IH]; intros width pos bc es H; [discriminate|].
+  cbn [best] in H.
+  destruct bc as [|[[ind m] d] bc'].
+  - inversion H; subst. constructor.
+  - destruct d.
+    + apply IH in H. change (map atom_of_event es) with ([] ++ map atom_of_event es).
+      constructor; [apply l_nil|exact H].
+    + apply IH in H. apply sl_inv in H. destruct H as (x & y & E & Hx & Hr).
+      apply sl_inv in Hr. destruct Hr as (x2 & y2 & -> & Hx2 & Hr2).
+      rewrite E, app_assoc. constructor; [apply l_app; assumption|assumption].
+    + destruct m.
+      * destruct (fitting fuel width pos ind MFlat [d] bc') as [[|]|] eqn:Ef; try discriminate.
+        -- apply fitting_true_no_line in Ef. cbn in Ef. rewrite orb_false_r in Ef.
+           apply IH in H. eapply sl_replace; [|exact H]. intros x Hx. apply l_group_flat; assumption.
+        -- apply IH in H. eapply sl_replace; [|exact H]. intros x Hx. apply l_group_break; assumption.
+      * apply IH in H. eapply sl_replace; [|exact H]. intros x Hx. apply l_group_inflat; assumption.
+    + apply IH in H. eapply sl_replace; [|exact H].
+      intros x Hx. destruct m; [apply l_alt_break|apply l_alt_flat]; exact Hx.
+    + apply IH in H. eapply sl_replace; [|exact H]. intros x Hx. apply l_nest. exact Hx.
+    + destruct (best fuel width _ bc') eqn:E; [|discriminate].
+      inversion H; subst. apply IH in E. cbn [map atom_of_event].
+      change (ALine :: map atom_of_event l) with ([ALine] ++ map atom_of_event l).
+      constructor; [apply l_hard|assumption].
+    + destruct (best fuel width (pos + text_width (DText s)) bc') eqn:E; [|discriminate].
+      inversion H; subst. apply IH in E. cbn [map atom_of_event].
+      change (AText s :: map atom_of_event l) with ([AText s] ++ map atom_of_event l).
+      constructor; [apply l_text|assumption].
+    + destruct (best fuel width (pos + text_width (DTextW w s)) bc') eqn:E; [|discriminate].
+      inversion H; subst. apply IH in E. cbn [map atom_of_event].
+      change (AText s :: map atom_of_event l) with ([AText s] ++ map atom_of_event l).
+      constructor; [apply l_textw|assumption].
+    + apply IH in H. eapply sl_replace; [|exact H]. intros x Hx. apply l_align. exact Hx.
+Qed.
+
+Theorem render_lay : forall width d es,
+  render_events width d = Some es -> lay MBreak d (map atom_of_event es).
+Proof.
+  intros width d es H. apply best_lay in H.
+  apply sl_inv in H. destruct H as (x & y & E & Hx & Hr). inversion Hr; subst.
+  rewrite E, app_nil_r. assumption.
+Qed.
+
+(* a flat layout of a document without flat line breaks stays on one line *)
+Lemma lay_flat_one_line : forall d x, lay MFlat d x -> flat_has_line d = false -> ~ In ALine x.
+Proof.
+  intros d x H. remember MFlat as m eqn:Em. induction H; intros Hf; cbn [flat_has_line] in Hf; subst; try discriminate.
+  - intros [].
+  - apply orb_false_elim in Hf. destruct Hf. intros Hi. apply in_app_or in Hi. destruct Hi; [apply IHlay1|apply IHlay2]; auto.
+  - auto.
+  - auto.
+  - auto.
+  - intros [H0|[]]. discriminate.
+  - intros [H0|[]]. discriminate.
+  - auto.
+Qed.
